@@ -285,10 +285,14 @@ def run(tier, seed, only=None):
     }
 """ % ", ".join("%d => %s" % (i, k) for i, k in enumerate(kinds))
         tcases, tfinish = traversal(rep, s, mir_text, tier, seed, only, check, nq)
+        kreplay = block_kinds(rep, mir_text, only, check)
         del mir_text
         nr = NativeRun(s, "erg_compiler", "crates/erg_compiler/effectcheck.rs", helpers=helpers + NERR_HELPER)
         for cid, expr_ in tcases:
             nr.add(cid, expr_)
+        for i_, (kob, kprog) in enumerate(kreplay):
+            if kprog:
+                nr.add("kk.%d" % i_, "nerr(\"%s\")" % kprog.replace("\\", "\\\\").replace('"', '\\"').replace("\n", "\\n"))
         import random
         rnd = random.Random(seed + 22)
         vecs = []
@@ -306,7 +310,7 @@ def run(tier, seed, only=None):
         if res is None:
             rep.add(Obligation(key="translation/validated", verdict=BROKEN, reason="the native validation binary did not build or run"))
             return rep.finish()
-        tbad = []
+        tbad, timprecise = [], []
         for i, v in enumerate(vecs):
             flow, ks, paths = runs[len(v)]
             pins = [DISC(k) == x for k, x in zip(ks, v)]
@@ -317,11 +321,14 @@ def run(tier, seed, only=None):
                 if check(Q.pc + pins + [z3.Not(S.truth(flow, rv))])[0] == "sat":
                     outs.add("false")
             rep.replayed += 1
-            if outs != {res.get("t.%d" % i)}:
+            if res.get("t.%d" % i) not in outs:
                 tbad.append("%s: real %s, encoding %s" % ([kinds[x] for x in v], res.get("t.%d" % i), sorted(outs)))
+            elif len(outs) > 1:
+                timprecise.append(v)
         rep.add(Obligation(dict(engine="mirsem vs native", functions=["SideEffectChecker::in_context_effects_allowed"]), key="translation/validated", nontrivial=False,
-                           verdict=BROKEN if tbad else HELD,
+                           verdict=BROKEN if tbad else INCONCLUSIVE if timprecise else HELD,
                            reason=("the encoding disagrees with the real function: " + " | ".join(tbad[:4])) if tbad else
+                           ("the encoding leaves the answer open on %d concrete stacks (an unmodelled callee): verdicts above are sound for 'held' only" % len(timprecise)) if timprecise else
                            "the symbolic execution predicts the real function's answer on %d concrete stacks (all of depth <= 3, a sample of deeper ones)" % len(vecs)))
         for i, (ob, stack, got) in enumerate(to_replay):
             g = res.get("r.%d" % i)
@@ -331,6 +338,19 @@ def run(tier, seed, only=None):
                 ob["verdict"] = BROKEN
                 ob["reason"] = "counterexample did not reproduce natively (%s): %s" % (g, ob["reason"])
         tviol = tfinish(res)
+        for i_, (kob, kprog) in enumerate(kreplay):
+            if not kprog:
+                kob["verdict"] = INCONCLUSIVE
+                kob["reason"] = "no program form for this row: the counterexample could not be replayed (%s)" % kob["reason"]
+                continue
+            got_ = res.get("kk.%d" % i_)
+            rep.replayed += 1
+            kob["native_replay"] = {"program": kprog, "real front end + effect checker": got_}
+            if got_ != "accepted":
+                kob["verdict"] = BROKEN
+                kob["reason"] = "counterexample did not reproduce natively (%s): %s" % (got_, kob["reason"])
+            else:
+                tviol.append((kob, kprog))
         confirmed = [t for t in to_replay if t[0]["verdict"] == VIOLATED]
         if (confirmed or tviol) and (tier == "thorough" or any(not rep.known.lookup(rep.prop, t[0]["key"]) for t in confirmed + tviol)):
             e2e(s, rep, confirmed, kinds, tviol)
@@ -676,3 +696,72 @@ NERR_HELPER = r"""
         }, "nerr")
     }
 """
+
+
+
+# ---------------------------------------------------------------------------------------------
+# stage 3: the block kind check_def pushes for a definition
+
+KIND_TABLE = {  # (procedural name, subroutine, constant) -> kind    (None: rejected earlier: "user-defined constant procedures are not allowed")
+    (True, True, False): "Proc", (False, True, False): "Func", (False, True, True): "ConstFunc",
+    (True, False, False): "Instant", (False, False, False): "Instant", (True, False, True): "ConstInstant", (False, False, True): "ConstInstant",
+    (True, True, True): None,
+}
+
+
+def block_kinds(rep, fns_text, only, check):
+    """returns [(obligation, program)] to replay"""
+    fns = M.parse_mir(fns_text, want=["effectcheck::"])
+    mains = [f for f in fns.values() if f.short == "check_def" and f.name.startswith("effectcheck::")]
+    key = "block-kind/table"
+    if only and not any(o in key for o in only.split(",")):
+        return []
+    ob = Obligation(dict(engine="mirsem (MIR -> z3 %s)" % z3.get_version_string(), solver="z3", functions=["SideEffectChecker::check_def"],
+                         shape="a definition", symbolic=["the name is procedural (ends with !)", "it is a subroutine", "it is a constant"], bounds={}), key=key)
+    rep.add(ob)
+    if len(mains) != 1:
+        ob.update(verdict=BROKEN, reason="check_def not found uniquely in the MIR dump (%d)" % len(mains))
+        return []
+    flags = {"is_procedural": z3.Bool("def_procedural"), "is_subr": z3.Bool("def_subr"), "is_const": z3.Bool("def_const")}
+
+    def flag(flow, P, callee, args):
+        return flow.mkbool(P, flags[callee.rsplit("::", 1)[-1]])
+
+    def push_kind(flow, P, callee, args):
+        P.calls.append(("KIND", [str(args[1])], None))
+        return ("stop",)
+    models_ = [(r"hir::Signature::(is_procedural|is_subr|is_const)$", flag), (r"^Vec::<effectcheck::BlockKind>::push$", push_kind)]
+    try:
+        flow = S.SemFlow(fns, mains[0], models_, {"Option": ["None", "Some"]})
+        outs = flow.run("bb0", stop_at=(), pre={"_1": const("self"), "_2": const("def")}, pc=list(S.BASE_AXIOMS))
+        wrong = []
+        npaths = 0
+        for Q, end in outs:
+            if check(Q.pc)[0] != "sat":
+                continue
+            kinds_ = [c[1][0] for c in Q.calls if c[0] == "KIND"]
+            if not kinds_:
+                continue
+            npaths += 1
+            got = kinds_[0].rsplit("_", 1)[-1]
+            for row, want in KIND_TABLE.items():
+                pins = [flags["is_procedural"] == row[0], flags["is_subr"] == row[1], flags["is_const"] == row[2]]
+                if check(Q.pc + pins)[0] == "sat" and want != got:
+                    wrong.append((row, want, got))
+        ob["queries"] = flow.queries + npaths * 9
+        ob["detail"] = {"paths that push a kind": npaths}
+        if npaths == 0:
+            ob.update(verdict=BROKEN, reason="no path pushes a block kind (vacuous encoding)")
+        elif wrong:
+            row, want, got = wrong[0]
+            ob["model"] = {"procedural name": row[0], "subroutine": row[1], "constant": row[2], "pushed": got, "expected": want}
+            ob.update(verdict=VIOLATED, reason="a definition with (procedural name, subroutine, constant) = %s gets a %s block, expected %s" % (row, got, want))
+            prog = None
+            if row == (True, False, False):      # a `!`-named *variable* inside a function: its initialiser must not be allowed effects
+                prog = T.PRELUDE + "g w =\n    q! =\n        print! w\n        print!\n    w\nprint! g 1\n"
+            return [(ob, prog)]
+        else:
+            ob.update(verdict=HELD, reason="on all %d paths the kind pushed for a definition is the one the table of the property gives for its (procedural name, subroutine, constant) flags" % npaths)
+    except Unsupported as e:
+        ob.update(verdict=INCONCLUSIVE, reason="unsupported-construct: " + str(e)[:200])
+    return []
